@@ -2,10 +2,12 @@ package main
 
 import (
 	"fmt"
+	"time"
 	"go/constant"
 	"go/token"
 	"go/types"
 	"math"
+	"strconv"
 	"strings"
 
 	"golang.org/x/tools/go/ssa"
@@ -60,6 +62,18 @@ type Engine struct {
 	clock                    int64
 	stack                    []string
 	byteBacking              map[*Value]Slice
+	pathCover                []string
+	stdSeen, modelsSeen      map[string]int
+	inPool                   map[*Value]bool
+	params                   map[string]int64
+	panicsReport             bool
+	maxDepth                 int
+	deadline                 time.Time
+	enumForks, enumForksPath int
+	maxUnwindSeen            int
+	concretizations          int
+	poolModel                int
+	panicking                *panicState
 }
 
 var initAllow = map[string]bool{"html": true}
@@ -157,7 +171,10 @@ func (e *Engine) Concretize(i Int) uint64 {
 	if i.T == nil {
 		return i.V
 	}
-	for {
+	for n := 0; ; n++ {
+		if n > 300 {
+			panic(unsupported("concretization of a symbolic integer enumerated more than 300 values"))
+		}
 		v, ok := e.solver.Eval(nil, i.T)
 		if !ok {
 			panic(pathEnd{"infeasible", "concretize"})
@@ -279,6 +296,9 @@ func (e *Engine) callFn(fnv Value, args []Value) Value {
 func (e *Engine) call(fn *ssa.Function, args []Value, env []Value) Value {
 	name := fn.String()
 	if in, ok := intrinsics[name]; ok {
+		if !strings.HasPrefix(name, twigPkg+"sym") {
+			e.modelsSeen[name]++
+		}
 		return in(e, args)
 	}
 	if fn.Name() == "init" && fn.Pkg != e.pkg && !(fn.Pkg != nil && initAllow[fn.Pkg.Pkg.Path()]) {
@@ -289,11 +309,13 @@ func (e *Engine) call(fn *ssa.Function, args []Value, env []Value) Value {
 		panic(unsupported("no body: " + name))
 	}
 	e.depth++
-	if e.depth > 200 {
-		panic(pathEnd{"fuel", "call depth"})
+	if e.depth > e.maxDepth {
+		panic(pathEnd{"fuel", "call depth " + strconv.Itoa(e.maxDepth) + " exceeded in " + name})
 	}
 	if fn.Pkg == e.pkg {
 		e.funcsSeen[name]++
+	} else {
+		e.stdSeen[name]++
 	}
 	fr := &Frame{fn: fn, locals: make(map[ssa.Value]Value, 32)}
 	for i, p := range fn.Params {
@@ -309,20 +331,59 @@ func (e *Engine) call(fn *ssa.Function, args []Value, env []Value) Value {
 	return res
 }
 
+type panicState struct {
+	v         Value
+	recovered bool
+}
+
 func (e *Engine) runFrame(fr *Frame) (result Value) {
 	defer func() {
-		if len(fr.defers) > 0 {
-			r := recover()
-			// run defers (no recover() support in prototype)
-			for i := len(fr.defers) - 1; i >= 0; i-- {
-				fr.defers[i]()
-			}
+		if len(fr.defers) == 0 {
+			return
+		}
+		r := recover()
+		if r == nil {
+			return
+		}
+		gp, isGo := r.(goPanic)
+		if !isGo {
+			// engine-level abort of the path: no user code runs any more
 			fr.defers = nil
-			if r != nil {
-				panic(r)
-			}
+			panic(r)
+		}
+		prev := e.panicking
+		ps := &panicState{v: gp.v}
+		e.panicking = ps
+		for len(fr.defers) > 0 {
+			d := fr.defers[len(fr.defers)-1]
+			fr.defers = fr.defers[:len(fr.defers)-1]
+			d()
+		}
+		e.panicking = prev
+		if !ps.recovered {
+			panic(r)
+		}
+		if fr.fn.Recover != nil {
+			fr.block = fr.fn.Recover
+			fr.prev = nil
+			fr.phiDone = false
+			result = e.execFrame(fr)
+			return
+		}
+		rs := fr.fn.Signature.Results()
+		switch rs.Len() {
+		case 0:
+			result = nil
+		case 1:
+			result = zero(rs.At(0).Type())
+		default:
+			result = zero(rs)
 		}
 	}()
+	return e.execFrame(fr)
+}
+
+func (e *Engine) execFrame(fr *Frame) (result Value) {
 	for {
 		blk := fr.block
 		if e.symbolicSeen {
@@ -330,6 +391,9 @@ func (e *Engine) runFrame(fr *Frame) (result Value) {
 				fr.visits = map[*ssa.BasicBlock]int{}
 			}
 			fr.visits[blk]++
+			if fr.visits[blk] > e.maxUnwindSeen {
+				e.maxUnwindSeen = fr.visits[blk]
+			}
 			if fr.visits[blk] > e.unwind {
 				panic(pathEnd{"fuel", fmt.Sprintf("unwinding bound %d exceeded in %s [%s]", e.unwind, fr.fn, e.prog.Fset.Position(blk.Instrs[0].Pos()))})
 			}
@@ -341,6 +405,9 @@ func (e *Engine) runFrame(fr *Frame) (result Value) {
 			e.cur = ins
 			if e.steps > e.fuel {
 				panic(pathEnd{"fuel", "steps"})
+			}
+			if e.steps&0xfff == 0 && !e.deadline.IsZero() && time.Now().After(e.deadline) {
+				panic(pathEnd{"timeout", "wall budget"})
 			}
 			switch ins := ins.(type) {
 			case *ssa.Phi:
@@ -387,10 +454,11 @@ func (e *Engine) runFrame(fr *Frame) (result Value) {
 				}
 				return t
 			case *ssa.RunDefers:
-				for i := len(fr.defers) - 1; i >= 0; i-- {
-					fr.defers[i]()
+				for len(fr.defers) > 0 {
+					d := fr.defers[len(fr.defers)-1]
+					fr.defers = fr.defers[:len(fr.defers)-1]
+					d()
 				}
-				fr.defers = nil
 			case *ssa.Panic:
 				panic(goPanic{e.get(fr, ins.X)})
 			case *ssa.Store:
